@@ -8,4 +8,5 @@ import SsqlVerif.Props.C11
 #print axioms C11.lex_literal_opaque
 #print axioms C11.lex_backtick_opaque
 #print axioms C11.facts_keywords
+#print axioms C11.facts_typos
 #print axioms C11.facts_token_codes
